@@ -246,7 +246,7 @@ func trieRecord(args []string) error {
 				prev := specList[rng.Intn(j)]
 				ss = append([]string{}, prev["segs"].([]string)...)
 			}
-			form := []string{"plain", "plain", "nolead", "trail", "dbl"}[rng.Intn(5)]
+			form := []string{"plain", "plain", "nolead", "trail", "dbl", "dtrail", "dmid"}[rng.Intn(7)]
 			body := strings.Join(ss, "/")
 			var text string
 			switch form {
@@ -261,6 +261,13 @@ func trieRecord(args []string) error {
 				}
 			case "dbl":
 				text = "//" + body
+			case "dtrail":
+				text = "/" + body + "//"
+				if len(ss) == 0 {
+					text = "//"
+				}
+			case "dmid":
+				text = "/" + strings.Join(ss, "//")
 			}
 			verb := verbs[rng.Intn(len(verbs))]
 			list[j] = tEntry{Verb: verb, Path: text}
